@@ -4,6 +4,7 @@ package main
 
 import (
 	"fmt"
+	"go/token"
 	"regexp"
 	"strings"
 
@@ -146,7 +147,10 @@ func runC08(c *Ctx) {
 		}
 		trues := findInstrs(fn, isTrue)
 		c.Ob("C08-D3", name+"/can-succeed", fn.Pos(), len(trues) >= 1, "RestoreSession never reports success")
-		for _, a := range []struct{ what string; as []Assume }{
+		for _, a := range []struct {
+			what string
+			as   []Assume
+		}{
 			{"unknown-session", []Assume{{`ok`, false}, {`a\.sessions\[pid\]#1`, false}}},
 			{"expired-session", []Assume{{`ok`, true}, {`a\.sessions\[pid\]#1`, true}, {`.*\.hasExpired\(a\.maxDisconnectDuration\)`, true}}},
 			{"unknown-offset", []Assume{{`ok`, true}, {`a\.sessions\[pid\]#1`, true}, {`.*\.hasExpired\(a\.maxDisconnectDuration\)`, false}, {`\(.* == -1\)`, true}, {`\(.* != -1\)`, false}, {`\(.* < 0\)`, true}, {`\(.* >= 0\)`, false}}},
@@ -167,24 +171,52 @@ func runC08(c *Ctx) {
 			a0, a1 := Term(inc[0].Arg(0)), Term(inc[0].Arg(1))
 			okArgs := a0 == "a.sessions[pid]#0.SessionToPersist.Rooms" && strings.HasPrefix(a1, "a.packets[") && strings.HasSuffix(a1, "].Opts")
 			c.Ob("C08-D3", name+"/filter-args", inc[0].Pos(), okArgs && inLoop(inc[0].Instr.Block()), "shouldIncludePacket("+a0+", "+a1+") (expected the session's rooms and each later packet's options)")
-			// the scan starts right after the found index
+			// the scan starts right after the found index and advances by one: either an index loop over a.packets that
+			// starts at found+1, or a counting/range loop over the sub-slice a.packets[found+1:]
 			idx := strings.TrimSuffix(strings.TrimPrefix(a1, "a.packets["), "].Opts")
-			okScan := false
-			if ia, isIA := unwrapLoadAddr(inc[0].Arg(1)); isIA {
-				if ph, isPhi := ia.Index.(*ssa.Phi); isPhi && len(ph.Edges) == 2 {
-					initOK, stepOK := false, false
-					for _, e := range ph.Edges {
-						bo, isB := e.(*ssa.BinOp)
-						if !isB || bo.Op.String() != "+" || Term(bo.Y) != "1" {
-							continue
-						}
-						if bo.X == ssa.Value(ph) {
-							stepOK = true
-						} else if xp, isP := bo.X.(*ssa.Phi); isP && vname(xp) == "index" {
-							initOK = true
+			isFoundPlus1 := func(v ssa.Value) bool {
+				bo, ok := v.(*ssa.BinOp)
+				if !ok || bo.Op != token.ADD || Term(bo.Y) != "1" {
+					return false
+				}
+				// the found index: the value the unknown-offset test compares with -1 / 0
+				for _, blk := range fn.Blocks {
+					for _, in := range blk.Instrs {
+						if cb, ok := in.(*ssa.BinOp); ok && cb.X == bo.X && (Term(cb.Y) == "-1" || Term(cb.Y) == "0") {
+							switch cb.Op {
+							case token.EQL, token.NEQ, token.LSS, token.GEQ:
+								return true
+							}
 						}
 					}
-					okScan = initOK && stepOK
+				}
+				return false
+			}
+			okScan := false
+			var elemAddr *ssa.IndexAddr
+			if ia, isIA := unwrapLoadAddr(inc[0].Arg(1)); isIA {
+				elemAddr = ia
+				switch base := ia.X.(type) {
+				case *ssa.Slice: // a.packets[found+1:][k], k = 0,1,2,…
+					if _, isCount := loopIndex(ia.Index); isCount && base.High == nil && base.Low != nil && isFoundPlus1(base.Low) && Term(base.X) == "a.packets" {
+						okScan = true
+					}
+				default: // a.packets[i], i = found+1, found+2, …
+					if ph, isPhi := ia.Index.(*ssa.Phi); isPhi && len(ph.Edges) == 2 && Term(ia.X) == "a.packets" {
+						initOK, stepOK := false, false
+						for _, e := range ph.Edges {
+							bo, isB := e.(*ssa.BinOp)
+							if !isB || bo.Op != token.ADD || Term(bo.Y) != "1" {
+								continue
+							}
+							if bo.X == ssa.Value(ph) {
+								stepOK = true
+							} else if isFoundPlus1(bo) {
+								initOK = true
+							}
+						}
+						okScan = initOK && stepOK
+					}
 				}
 			}
 			c.Ob("C08-D3", name+"/scan-after-offset", inc[0].Pos(), okScan, "the scan index is "+idx+" (expected to start at found index + 1 — the offset packet itself was received — and advance by 1)")
@@ -198,7 +230,19 @@ func runC08(c *Ctx) {
 				b, ok := cl.Call.Value.(*ssa.Builtin)
 				return ok && b.Name() == "append" && strings.Contains(Term(cl.Call.Args[0]), "missedPackets")
 			})
-			okApp := len(apps) == 1 && HasGuard(apps[0], regexpQuote(T)+"==true") && strings.Contains(Term(apps[0].(*ssa.Call).Call.Args[1]), "[a.packets["+idx+"]]")
+			// the appended element is the very entry that was tested (same element address)
+			sameEntry := false
+			if len(apps) == 1 && elemAddr != nil {
+				for _, el := range varargElems(apps[0].(*ssa.Call).Call.Args[1]) {
+					if ia2, ok := unwrapLoadAddr(el); ok && ia2 == elemAddr {
+						sameEntry = true
+					}
+					if u, ok := el.(*ssa.UnOp); ok && u.X == ssa.Value(elemAddr) {
+						sameEntry = true
+					}
+				}
+			}
+			okApp := len(apps) == 1 && HasGuard(apps[0], regexpQuote(T)+"==true") && sameEntry
 			c.Ob("C08-D3", name+"/appends-admitted", inc[0].Pos(), okApp, "an admitted packet (and only it) must be appended to the missed packets, the very entry that was tested")
 			c.Ob("C08-D3", name+"/under-mu", inc[0].Pos(), li.HoldsW(inc[0].Instr, "a.mu"), "the log must be scanned under a.mu")
 		}
